@@ -100,6 +100,14 @@ def decide(ctx, thorough):
     if neg.violated != "NeverOverFailure":
         raise vf.MachineryError("negative twin MC_DecideShed_neg.cfg did not violate NeverOverFailure (violated=%s rc=%s)"
                                 % (neg.violated, neg.rc))
+    # 1c. eligibility by a list of unusable entries (elig = 2): the as-built-before-repair reading "no usable entry = no
+    #     restriction" must break SynthOnlyWhenAllowed on the model, so the rows are not vacuous
+    neg = ctx.tlc("Dns64", "MC_DecideQuick.tla", "MC_DecideQuick_neg_allbad.cfg", workers=WORKERS, timeout=400, heap="8g",
+                  must_pass=False, count=False,
+                  tag="negative twin: unusable client_networks admit everyone (must violate SynthOnlyWhenAllowed)")
+    if neg.violated not in ("SynthOnlyWhenAllowed", "PtrOnlyWhenAllowed"):
+        raise vf.MachineryError("negative twin MC_DecideQuick_neg_allbad.cfg did not violate SynthOnlyWhenAllowed "
+                                "(violated=%s rc=%s)" % (neg.violated, neg.rc))
     # 2. the table as the code is built (two named deviations switched on); its dump is
     #    replayed.  The structural invariants must hold; NeverAD / TtlMin are then checked on
     #    it separately and are *expected* to fail on the model (not a verdict: the verdict is
